@@ -752,6 +752,31 @@ def check_cipher_tables(rep, prog, rid):
     gotc = {k: v for k, v in gotc.items() if k in want_c}
     rep.check(gotc == want_c, rid, 'SymmetricKeyAlgorithm.cipher', 'cipher classes', 'each cipher id must be bound to its own block cipher',
               where=cf.where, expected=want_c, found=gotc)
+    # a cipher id WITHOUT a table entry (a wrong passphrase turns the cipher octet of an SKESK into garbage; 0 = Plaintext is a member):
+    # the lookup must fail with one of the classes the candidate search of PGPMessage.decrypt continues on - a bare `table[self]`
+    # (KeyError) or another class aborts the search although a later session-key packet would have worked (seeded change C03-w6mut1)
+    from . import taint as _t
+    from .sigdata import enum_const as _ec
+    import re as _re
+    for meth, table in (('cipher', want_c), ('key_size', want_ks)):
+        f = ci.methods[meth]
+        for m in sorted(set(mem) - set(table) - {'Twofish256'}):
+            outcomes = []
+            for st in _t.run_roles(prog, f, ('self',), args={'self': _ec(prog, ci.name, m)}):
+                if st.raised is not None:
+                    outcomes.append(render(st.raised) if not isinstance(st.raised, str) else st.raised)
+                elif st.ret is not None:
+                    r = render(st.ret)
+                    mm = _re.match(r'^\{(.*)\}\[%s\.(\w+)\]$' % _re.escape(ci.name), r, _re.S)
+                    if mm and ('%s.%s:' % (ci.name, mm.group(2))) not in mm.group(1):
+                        outcomes.append('KeyError(%s.%s)' % (ci.name, mm.group(2)))
+            classes = sorted(set(o.split('(')[0].split('.')[-1] for o in outcomes))
+            bad_cls = [c for c in classes if c not in WRONG_CANDIDATE_FAILURES]
+            rep.check(not bad_cls, rid, 'SymmetricKeyAlgorithm.%s' % meth, 'cipher id %s without an entry fails with %s' % (m, classes or 'nothing decided'),
+                      'a cipher id the table does not know must be refused with an exception the candidate search of PGPMessage.decrypt '
+                      'continues on (%s): a wrong passphrase yields such ids, and any other class ends the search before the matching '
+                      'session-key packet is tried' % ', '.join(WRONG_CANDIDATE_FAILURES), where=f.where,
+                      expected='NotImplementedError', found=outcomes)
     # the block size is the bound cipher's own (the zero IV, gen_iv and the SEIPD prefix are sized by it)
     from . import taint
     bf = ci.methods.get('block_size')
